@@ -308,6 +308,43 @@ def run_all(tier, seed):
             fails.append(common.Failure("oracle", "C14:false-cycle", f"hybrid class with _depends_on {hctx['depends_on']}: {str(e)[:120]}", hctx))
         except Exception as e:
             fails.append(common.Failure("oracle", f"C14:sortc-raises:{type(e).__name__}", f"hybrid class with _depends_on {hctx['depends_on']}: {str(e)[:160]}", hctx))
+    # ---- several classes with ONE name ("in case of multiple classes with the same name, the last one is used"): the class emitted
+    #      under that name is the last one given, and everything THAT class needs is emitted before it
+    for k in range(6 if tier == "quick" else 150):
+        uid = f"{seed}x{k}x{r.randrange(10**6)}"
+        Aux = type(f"SNA{uid}", (xo.Struct,), {"t": xo.Float64})
+        Aux2 = type(f"SNB{uid}", (xo.Struct,), {"u": xo.Int64})
+        variants = [type(f"SNE{uid}", (xo.Struct,), {"v": xo.Float64}),
+                    type(f"SNE{uid}", (xo.Struct,), {"v": xo.Float64, "a": Aux}),
+                    type(f"SNE{uid}", (xo.Struct,), {"b": Aux2[:], "a": Aux})]
+        given = [r.choice(variants) for _ in range(r.randrange(2, 4))]
+        others = r.sample([Aux, Aux2], r.randrange(0, 2))
+        roots = list(given)
+        for o_ in others:
+            roots.insert(r.randrange(len(roots) + 1), o_)
+        last = [c for c in roots if c.__name__ == f"SNE{uid}"][-1]
+        sctx = {"component": "topo", "op": "same-name", "roots": [f"{c.__name__}{sorted(f.name for f in getattr(c, '_fields', []))}" for c in roots]}
+        try:
+            out = sort_classes(list(roots))
+            names = [c.__name__ for c in out]
+            mine = [c for c in out if c.__name__ == last.__name__]
+            if len(mine) != 1 or mine[0] is not last:
+                fails.append(common.Failure("oracle", "C14:same-name-not-last", f"roots {sctx['roots']}: the class emitted as {last.__name__} is not the last one given ({names})", sctx))
+            else:
+                need = []
+                for ft in [f.ftype for f in last._fields]:
+                    need.append(ft.__name__)
+                    if hasattr(ft, "_itemtype"):
+                        need.append(ft._itemtype.__name__)
+                need = [n for n in need if n.startswith(("SN", "ArrNSN"))]
+                for dn in need:
+                    if names.count(dn) != 1 or names.index(dn) > names.index(last.__name__):
+                        fails.append(common.Failure("oracle", "C14:declared-dependency-missing", f"roots {sctx['roots']}: {last.__name__} (the last definition) needs {dn}, "
+                                                    f"which is not emitted exactly once before it: {names}", sctx))
+                        break
+            tags["same-name"] += 1
+        except Exception as e:
+            fails.append(common.Failure("oracle", f"C14:sortc-raises:{type(e).__name__}", f"same-name roots {sctx['roots']}: {str(e)[:160]}", sctx))
     got = common.run_driver("topo", lines)
     mism = []
     for l, e, g, ctx in zip(lines, expect, got, ctxs):
